@@ -14,6 +14,8 @@ func init() {
 			c.floor("SHIFT", 4)
 			c.runComplementarySplit("CS", pkgs, ff)
 			c.floor("CS", 4)
+			c.runZeroSlot("ZEROSLOT", append(c.libPkgs(), c.fixturePkg("s")), nil)
+			c.floor("ZEROSLOT", 6)
 			c.runPair("PAIR", append(c.libPkgs(), c.fixturePkg("s")), nil)
 			c.floor("PAIR", 4)
 			c.runCallbackCount(iterFamily, pkgs)
